@@ -441,8 +441,9 @@ class BVMergeReducedBW:
         nsort = node[3]
         zext = int(get_defined_fun(name)[0][-1].data)
         deffun_name = node[-1][-1]
-        if deffun_name == name:
-            # a definition in terms of itself: nothing to merge
+        if deffun_name == name or is_recursive_defined_fun(deffun_name):
+            # a definition in terms of itself (directly or via other
+            # definitions): merging would go on for ever
             return []
         deffun_body = get_defined_fun(deffun_name)
         deffun_zext = int(deffun_body[0][-1].data)
